@@ -238,5 +238,15 @@ def run(ctx):
             b"WinAnsiEncoding": "WIN_ANSI_ENCODING", b"PDFDocEncoding": "PDF_DOC_ENCODING"}
     ctx.ob(R, "font-encoding-names", disp == want, "get_font_encoding dispatches %s" % {k.decode(): v for k, v in disp.items()}, gfe.where(),
            what="get_font_encoding maps a predefined encoding name to the wrong table (or lost one): %s" % {k.decode(): v for k, v in disp.items()})
+    # the ToUnicode entry of a font is (always) an indirect reference to a stream: every place that reads it resolves it
+    tu_raw = [c for x in lib.local_scope(F, gfe) for c in x.calls if c.local and re.search(r"Dictionary::get$", c.cname) and any(lib._const_bytes_through(x, a) == b"ToUnicode" for a in c.args[1:])]
+    tu_der = [c for x in lib.local_scope(F, gfe) for c in x.calls if c.local and re.search(r"Dictionary::get_deref$", c.cname) and any(lib._const_bytes_through(x, a) == b"ToUnicode" for a in c.args[1:])]
+    ctx.ob(R, "tounicode-behind-a-reference", len(tu_der) >= 1 and not tu_raw, "ToUnicode is fetched with get_deref (%d place(s))" % len(tu_der), gfe.where(tu_raw[0].ln if tu_raw else None),
+           what="get_font_encoding reads /ToUnicode without resolving the reference it is held by: the CMap is skipped and the text is decoded with a default one-byte encoding")
+    # nothing stands between `text.encode_utf16()` and the bytes written: no adaptor that can drop or reorder units
+    dropping = [(c.fn or "").rsplit("::", 1)[-1] for x in lib.local_scope(F, enc) for c in x.calls
+                if re.search(r"iter::Iterator::(skip|skip_while|take|take_while|filter|filter_map|step_by|rev|dedup|scan|map_while|peekable)$", c.fn or "")]
+    ctx.ob(R, "encoder-utf16be-writes-every-unit", not dropping, "every unit of encode_utf16() is written", enc.where(),
+           what="encode_utf16_be passes the UTF-16 units through %s before writing them: units of the text can be dropped (a leading U+FEFF, for instance), so decode(encode(text)) != text" % sorted(set(dropping)))
     ctx.extra.update({"tables": len(tabs), "cells": cells, "cells_defined": defined})
     LEVEL["explanation"] = "exhaustive over 7 tables x 256 cells"
